@@ -778,7 +778,7 @@ PROPS["C03"].update({
                   "and submission-queue capacity == buffer from the MIR of the real sizing functions (z3/cvc5), and "
                   "the used-chunk list against a set model; the end-to-end connection data path did not fit the solver.",
     "level_note": "capacity <= 2, 2 operations of the preempted thread with 1-2 complete operations of the other one "
-                  "(capacity 3 and deeper schedules exist as tier 'extended', not claimed), SC interleavings only: C11 weak-memory stale "
+                  "(thorough adds capacity-3 sequential histories; deeper schedules exist as tier 'extended', not claimed), SC interleavings only: C11 weak-memory stale "
                   "reads are outside the claim; zero_copy_connection try_send/receive/release end-to-end is outside "
                   "the claim (44 M variables at the smallest configuration)",
 })
@@ -815,7 +815,7 @@ PROPS["C09"].update({
                   "schedules incl. the ABA shape and the lock-if-last hand-shake. " + _SCHED + ". Thorough tier adds the "
                   "recovery of a dead owner preempted at every atomic operation while a second recoverer / a live owner "
                   "run in the gaps (25 min per harness).",
-    "level_note": "capacity <= 2 (thorough: capacity 1 race as well), 1 preempted operation with up to 2 complete "
+    "level_note": "capacity <= 2 (thorough: capacity 1 race and capacity 3-4 sequential histories as well), 1 preempted operation with up to 2 complete "
                   "operations of the other thread; SC only; wrap of the 16-bit ABA tag and 3 threads outside the claim",
 })
 PROPS["C11"].update({
@@ -893,6 +893,8 @@ c19_cross_domain_direct c19_cross_domain_direct_mixed_len c19_path_for_shape
 c12_s_reader_outer_deep c12_s_writer_outer_deep
 c05_ev_id_out_of_range
 c13_q_mismatch_buffer_same_role c13_q_race_detach_after_registration_mismatch
+c09_uis_history_cap3 c09_uis_history_cap4
+c03_seq_index_queue_cap3 c03_seq_overflow_queue_cap3 c03_seq_spsc_queue_cap3
 """.split())
 for _p in PROPS:
     for _h in PROPS[_p]["harnesses"]:
